@@ -16,6 +16,7 @@ Record in_class {K : Type} (keqb : K -> K -> bool) (g : rgeo) (nm nm' : cid -> K
   ic_keqb : forall a b, keqb a b = true <-> a = b;
   ic_wf : wf g;
   ic_2d : (2 <= nx g)%nat \/ (2 <= ny g)%nat;
+  ic_unit : gax g * gax g + gay g * gay g = 1;        (* any orientation: the x-axis points along a unit vector *)
   ic_nm : forall a b, latt g a -> latt g b -> nm a = nm b -> a = b;
   ic_nm' : forall a b, latt g a -> latt g b -> nm' a = nm' b -> a = b;
   ic_active : forall k i j, present g (Cell (S k) i j) -> volume g (S k) i j < av;
@@ -32,9 +33,13 @@ Definition clear_of_defects (fxp fx2 : bool) (g : rgeo) : Prop :=
 (** the grid the property is about, with any iteration order of the connection_name sets *)
 Definition grid_of {K} (g : rgeo) (nm : cid -> K) (cn : K -> list (K * K)) : grid K := G K g nm cn.
 Definition expected {K} (keqb : K -> K -> bool) (g : rgeo) (nm nm' : cid -> K) : result K :=
-  mkResult (gdx g) (gdy g) (gdz g) (PosXY (gox g) (goy g)) (goz g)
+  mkResult (gdx g) (gdy g) (gdz g) (PosAx (gox g) (goy g) (gax g) (gay g)) (goz g)
            (map (fun c => gsurf g (fst c) (snd c)) (colidx (nx g) (ny g)))
-           (pruned_log K keqb g nm nm' (gox g) (goy g)).
+           (pruned_log K keqb g nm nm' (PosAx (gox g) (goy g) (gax g) (gay g))).
+(** the optional arguments of rectgeo the theorems cover: remove_inactive (when no block has a
+    non-positive volume) and origin_block (absent, or the first block of the bottom layer) *)
+Definition rm_ok (rminact : bool) (g : rgeo) : Prop := rminact = true -> gatm g <> 2%nat -> 0 < gatmvol g.
+Definition ob_ok {K} (obk : option K) (g : rgeo) (nm : cid -> K) : Prop := obk = None \/ obk = Some (nm (Cell (nz g) 0 0)).
 
 Section Final.
 Variable K : Type.
@@ -43,26 +48,32 @@ Variable g : rgeo.
 Variable nm nm' : cid -> K.
 Variable av snap : Qc.
 Hypothesis C : in_class keqb g nm nm' av snap.
+Variable heading : Qc -> Qc -> option (Qc * Qc).
+Hypothesis HS : heading_spec heading.
+Variable obk : option K.
+Hypothesis OB : ob_ok obk g nm.
+Variable rminact : bool.
+Hypothesis RM : rm_ok rminact g.
 
 Lemma rectgeo_total_lemma fxp fx2 cn : cn_ok K g nm cn -> clear_of_defects fxp fx2 g ->
-  rectgeo K keqb fxp fx2 (grid_of g nm cn) av snap (gatm g) nm' = Ok (expected keqb g nm nm').
+  rectgeo K keqb heading fxp fx2 (grid_of g nm cn) obk av rminact snap (gatm g) nm' = Ok (expected keqb g nm nm').
 Proof.
-  intros CN [D1 D2]. destruct C as [C1 C2 C3 C4 C5 C6 C7 C8 [i0 [j0 [Hi [Hj HT]]]]].
-  exact (rectgeo_exact K keqb C1 g C2 nm C4 cn CN av C6 C7 nm' C5 snap C8 i0 j0 Hi Hj HT C3 fxp fx2 D1 D2).
+  intros CN [D1 D2]. destruct C as [C1 C2 C3 CU C4 C5 C6 C7 C8 [i0 [j0 [Hi [Hj HT]]]]].
+  exact (rectgeo_exact K keqb C1 g C2 nm C4 cn CN av C6 C7 nm' C5 CU heading HS snap C8 rminact RM i0 j0 Hi Hj HT C3 obk OB fxp fx2 D1 D2).
 Qed.
 
 Lemma rectgeo_spacings_lemma fxp fx2 cn : cn_ok K g nm cn -> clear_of_defects fxp fx2 g ->
-  exists r, rectgeo K keqb fxp fx2 (grid_of g nm cn) av snap (gatm g) nm' = Ok r /\
+  exists r, rectgeo K keqb heading fxp fx2 (grid_of g nm cn) obk av rminact snap (gatm g) nm' = Ok r /\
             r_dx r = gdx g /\ r_dy r = gdy g /\ r_dz r = gdz g.
 Proof. intros CN D. eexists. split; [apply rectgeo_total_lemma; assumption|]. cbn. auto. Qed.
 
 Lemma rectgeo_position_lemma fxp fx2 cn : cn_ok K g nm cn -> clear_of_defects fxp fx2 g ->
-  exists r, rectgeo K keqb fxp fx2 (grid_of g nm cn) av snap (gatm g) nm' = Ok r /\
-            r_pos r = PosXY (gox g) (goy g) /\ r_oz r = goz g.
+  exists r, rectgeo K keqb heading fxp fx2 (grid_of g nm cn) obk av rminact snap (gatm g) nm' = Ok r /\
+            r_pos r = PosAx (gox g) (goy g) (gax g) (gay g) /\ r_oz r = goz g.
 Proof. intros CN D. eexists. split; [apply rectgeo_total_lemma; assumption|]. cbn. auto. Qed.
 
 Lemma rectgeo_surface_lemma fxp fx2 cn : cn_ok K g nm cn -> clear_of_defects fxp fx2 g ->
-  exists r, rectgeo K keqb fxp fx2 (grid_of g nm cn) av snap (gatm g) nm' = Ok r /\
+  exists r, rectgeo K keqb heading fxp fx2 (grid_of g nm cn) obk av rminact snap (gatm g) nm' = Ok r /\
             length (r_surf r) = (nx g * ny g)%nat /\
             forall i j, (i < nx g)%nat -> (j < ny g)%nat -> list_surf (length (r_dx r)) (r_surf r) (r_oz r) i j = gsurf g i j.
 Proof.
@@ -72,22 +83,22 @@ Proof.
 Qed.
 
 Lemma rectgeo_blockmap_regenerates_lemma fxp fx2 cn r : cn_ok K g nm cn -> clear_of_defects fxp fx2 g ->
-  rectgeo K keqb fxp fx2 (grid_of g nm cn) av snap (gatm g) nm' = Ok r ->
+  rectgeo K keqb heading fxp fx2 (grid_of g nm cn) obk av rminact snap (gatm g) nm' = Ok r ->
   let f := fun c => apply_map K keqb (r_map r) (nm' c) in
-  let g' := rebuilt r (gatm g) (gatmvol g) (gatmconn g) in
+  let g' := rebuilt r (gatm g) (gatmvol g) (gatmconn g) (gatmz g) in
   rect_blocks f g' = rect_blocks nm g /\ rect_conns f g' = rect_conns nm g.
 Proof.
   intros CN D E. rewrite (rectgeo_total_lemma fxp fx2 cn CN D) in E. inversion E as [E']. clear E.
-  destruct C as [C1 C2 C3 C4 C5 C6 C7 C8 _].
+  destruct C as [C1 C2 C3 CU C4 C5 C6 C7 C8 _].
   apply (regenerates_exact K keqb C1 g C2 nm C4 cn CN av C6 C7 nm' C5). reflexivity.
 Qed.
 
 (** the atmosphere arrangement: the regenerated grid has the original atmosphere blocks, in order,
     and no other block under their names *)
 Lemma rectgeo_atmosphere_lemma fxp fx2 cn r : cn_ok K g nm cn -> clear_of_defects fxp fx2 g ->
-  rectgeo K keqb fxp fx2 (grid_of g nm cn) av snap (gatm g) nm' = Ok r ->
+  rectgeo K keqb heading fxp fx2 (grid_of g nm cn) obk av rminact snap (gatm g) nm' = Ok r ->
   let f := fun c => apply_map K keqb (r_map r) (nm' c) in
-  let g' := rebuilt r (gatm g) (gatmvol g) (gatmconn g) in
+  let g' := rebuilt r (gatm g) (gatmvol g) (gatmconn g) (gatmz g) in
   gatm g' = gatm g /\ map (mk_block f) (atm_cells g') = map (mk_block nm) (atm_cells g) /\
   map (mk_block f) (rock_cells g') = map (mk_block nm) (rock_cells g).
 Proof.
@@ -104,25 +115,25 @@ Qed.
 
 (** the result does not depend on the iteration order of the connection_name sets *)
 Lemma track_order_independent_lemma fxp fx2 cn cn' : cn_ok K g nm cn -> cn_ok K g nm cn' -> clear_of_defects fxp fx2 g ->
-  rectgeo K keqb fxp fx2 (grid_of g nm cn) av snap (gatm g) nm' = rectgeo K keqb fxp fx2 (grid_of g nm cn') av snap (gatm g) nm'.
+  rectgeo K keqb heading fxp fx2 (grid_of g nm cn) obk av rminact snap (gatm g) nm' = rectgeo K keqb heading fxp fx2 (grid_of g nm cn') obk av rminact snap (gatm g) nm'.
 Proof. intros CN CN' D. rewrite !rectgeo_total_lemma by assumption. reflexivity. Qed.
 
 (** the two recorded defects, for every geometry of the class they apply to *)
 Lemma single_block_direction_1_nan_lemma fx2 cn : cn_ok K g nm cn -> nx g = 1%nat ->
   (fx2 = false -> has g (nz g - 1) 0 0 = true \/ (gatm g < 2)%nat) ->
-  exists r, rectgeo K keqb false fx2 (grid_of g nm cn) av snap (gatm g) nm' = Ok r /\ r_pos r = PosNaN /\
+  exists r, rectgeo K keqb heading false fx2 (grid_of g nm cn) obk av rminact snap (gatm g) nm' = Ok r /\ r_pos r = PosNaN /\
             r_dx r = gdx g /\ r_dy r = gdy g /\ r_dz r = gdz g.
 Proof.
-  intros CN E1 G2. destruct C as [C1 C2 C3 C4 C5 C6 C7 C8 [i0 [j0 [Hi [Hj HT]]]]].
-  eexists. split; [exact (rectgeo_single_block_nan K keqb C1 g C2 nm C4 cn CN av C6 C7 nm' C5 snap C8 i0 j0 Hi Hj HT C3 fx2 E1 G2)|].
+  intros CN E1 G2. destruct C as [C1 C2 C3 CU C4 C5 C6 C7 C8 [i0 [j0 [Hi [Hj HT]]]]].
+  eexists. split; [exact (rectgeo_single_block_nan K keqb C1 g C2 nm C4 cn CN av C6 C7 nm' C5 CU heading HS snap C8 rminact RM i0 j0 Hi Hj HT C3 obk OB fx2 E1 G2)|].
   cbn. auto.
 Qed.
 Lemma origin_column_2d_indexerror_lemma fxp cn : cn_ok K g nm cn -> (nx g = 1%nat \/ ny g = 1%nat) ->
   has g (nz g - 1) 0 0 = false -> (2 <= gatm g)%nat ->
-  rectgeo K keqb fxp false (grid_of g nm cn) av snap (gatm g) nm' = Raise IndexError.
+  rectgeo K keqb heading fxp false (grid_of g nm cn) obk av rminact snap (gatm g) nm' = Raise IndexError.
 Proof.
-  intros CN E Hh A. destruct C as [C1 C2 C3 C4 C5 C6 C7 C8 [i0 [j0 [Hi [Hj HT]]]]].
-  exact (rectgeo_2d_indexerror K keqb C1 g C2 nm C4 cn CN av C6 C7 nm' C5 snap C8 i0 j0 Hi Hj HT C3 fxp E Hh A).
+  intros CN E Hh A. destruct C as [C1 C2 C3 CU C4 C5 C6 C7 C8 [i0 [j0 [Hi [Hj HT]]]]].
+  exact (rectgeo_2d_indexerror K keqb C1 g C2 nm C4 cn CN av C6 C7 nm' C5 CU heading HS snap C8 rminact RM i0 j0 Hi Hj HT C3 obk OB fxp E Hh A).
 Qed.
 End Final.
 
